@@ -31,10 +31,11 @@ model, in whatever states (histories, processes: any two invariant-satisfying st
 whatever builders, with whatever set iteration orders they are made. -/
 theorem C06_same_configuration_same_model (v : Variant) (hv : v.sound) (w : World) (hw : WorldOK w)
     (s₁ s₂ : State) (h₁ : SInv w s₁) (h₂ : SInv w s₂) (i₁ i₂ : Nat) (o₁ o₂ : List Nat)
+    (a₁ a₂ : List (List Nat))
     (b₁ b₂ : Builder) (hb₁ : s₁.builders[i₁]? = some b₁) (hb₂ : s₂.builders[i₂]? = some b₂)
     (hr : b₁.reaction = b₂.reaction) (hc : b₁.user = b₂.user) :
-    (step v w s₁ (.formulate i₁ o₁)).2 = (step v w s₂ (.formulate i₂ o₂)).2 := by
-  rw [step_output hv hw h₁ i₁ o₁ b₁ hb₁, step_output hv hw h₂ i₂ o₂ b₂ hb₂, hr, hc]
+    (step v w s₁ (.formulate i₁ o₁ a₁)).2 = (step v w s₂ (.formulate i₂ o₂ a₂)).2 := by
+  rw [step_output hv hw h₁ i₁ o₁ a₁ b₁ hb₁, step_output hv hw h₂ i₂ o₂ a₂ b₂ hb₂, hr, hc]
 
 /-- The invariant behind `C06_pure`: after any history every cache entry still refers to the
 pure value of its key (in particular the memoised DPD symbol dict is never modified). -/
@@ -124,6 +125,43 @@ seeds) return `kinematic_variables` in different key orders (`m_01, m_1` vs `m_1
 theorem C06_witness_ties :
     (run tiesVariant w0 State.init tiesHistory)[2]? ≠ (run tiesVariant w0 State.init tiesHistory)[3]? ∧
     (run soundVariant w0 State.init tiesHistory)[2]? = (run soundVariant w0 State.init tiesHistory)[3]? := by
+  decide +kernel
+
+/-- **C06_missing_order.**  `__define_missing_amplitudes` followed by the amplitudes converter:
+when the atoms are visited in `sorted(..., key=str)` order (any linear order `strLe` on the keys),
+the final key order of `model.amplitudes` does not depend on the iteration order of the atoms
+set — for ANY converter order `convLe`, ties included. -/
+theorem C06_missing_order {κ β : Type} [DecidableEq κ] (strLe : κ → κ → Bool)
+    (total : ∀ a b, strLe a b = true ∨ strLe b a = true)
+    (anti : ∀ a b, strLe a b = true → strLe b a = true → a = b)
+    (trans : ∀ a b c, strLe a b = true → strLe b c = true → strLe a c = true)
+    (convLe : κ × β → κ × β → Bool) (registered : List (κ × β)) (zero : β)
+    (iter iter' : List κ) (hp : iter.Perm iter') :
+    isort convLe (ddefaults registered zero (isort strLe iter)) =
+      isort convLe (ddefaults registered zero (isort strLe iter')) := by
+  rw [isort_eq_of_perm total trans (fun a b _ _ => anti a b) hp]
+
+/-- Without the inner sort the statement is false as soon as two keys tie under the converter's
+key: `A[0, -1]` and `A[0, 1]` have the same natural-sort key (the sign is dropped), so the stable
+sort keeps the set-iteration order.  With the inner sort (code-point order of `str`) both orders
+give the same result. -/
+theorem C06_missing_order_needs_inner_sort :
+    let a : List Nat := "A[0, -1]".toList.map Char.toNat
+    let b : List Nat := "A[0, 1]".toList.map Char.toNat
+    let conv : List Nat × Nat → List Nat × Nat → Bool := fun x y => natKeyLe (natKey x.1) (natKey y.1)
+    natKey a = natKey b ∧
+    isort conv (ddefaults [] 0 [a, b]) ≠ isort conv (ddefaults [] 0 [b, a]) ∧
+    isort conv (ddefaults [] 0 (isort (lexLe natLe) [a, b])) =
+      isort conv (ddefaults [] 0 (isort (lexLe natLe) [b, a])) := by
+  decide +kernel
+
+/-- **C06_witness_missing.**  Zero definitions inserted in set-iteration order (seeded change
+C06_3 / before the `sorted` of e6c0bd9): two builders of one reaction with the same configuration
+whose atom sets iterate differently (two hash seeds) return `amplitudes` in different key orders. -/
+theorem C06_witness_missing :
+    (run missingUnsortedVariant w0 State.init missingHistory)[2]? ≠
+      (run missingUnsortedVariant w0 State.init missingHistory)[3]? ∧
+    (run soundVariant w0 State.init missingHistory)[2]? = (run soundVariant w0 State.init missingHistory)[3]? := by
   decide +kernel
 
 /-! ### non-vacuity -/
